@@ -8,6 +8,7 @@ input is replayed against the natively built crates (translator validation), and
 counterexample is reported only when the native run reproduces it.
 """
 import json
+import os
 import time
 import z3
 
@@ -20,6 +21,7 @@ from mirsym.engine import (Cell, Ref, Int, EnumV, Agg, Inconclusive, int_binop, 
 PROP = "C15"
 
 CRATES = ["sos_core", "sos_vault", "sos_filesystem"]
+ONLY = os.environ.get("VERIF_ONLY")
 
 DECODERS = [
     "EventKind", "UtcDateTime", "CommitHash", "Comparison", "AeadPack", "Cipher", "KeyDerivation",
@@ -76,6 +78,9 @@ class DecodeEntry:
     def outcome(self, value):
         return "ok" if value[0].variant == "Ok" else "err"
 
+    def native_outcome(self, nat):
+        return nat.get("outcome")
+
 
 def alloc_violation(res, ev):
     """z3 condition under which the allocation request `ev` is out of proportion"""
@@ -93,7 +98,7 @@ def alloc_violation(res, ev):
     return z3.And(z3.UGT(sz, z3.BitVecVal(MAX_OK_ALLOC, 128)), z3.UGT(sz, lim))
 
 
-def run_entry(prog, entry, loop_bound, max_paths, prefixes=None, stop_pending=None):
+def run_entry(prog, entry, loop_bound, max_paths, prefixes=None, time_budget=None):
     """explore one entry; returns a JSON-serialisable summary"""
     out = {"entry": entry.name, "states": 0, "queries": 0, "solver_s": 0.0, "obligations": 0, "discharged": 0,
            "replays_ok": 0, "replays_bad": 0, "inconclusive": [], "gaps": {}, "reports": [], "kinds": {},
@@ -151,7 +156,7 @@ def run_entry(prog, entry, loop_bound, max_paths, prefixes=None, stop_pending=No
             out["inconclusive"].append("%s: native run %r where the engine saw %s (input %s)" % (entry.name, nat, want, data.hex()))
         elif nondet:
             pass
-        elif nat["outcome"] == want:
+        elif entry.native_outcome(nat) == want:
             out["replays_ok"] += 1
             out["validated"] += 1
         else:
@@ -188,7 +193,7 @@ def run_entry(prog, entry, loop_bound, max_paths, prefixes=None, stop_pending=No
                     entry.name, big, data2.hex()))
 
     try:
-        eng.explore(entry.thunk(eng), on_result=on_result, prefixes=prefixes, stop_pending=stop_pending)
+        eng.explore(entry.thunk(eng), on_result=on_result, prefixes=prefixes, time_budget=time_budget)
     except Inconclusive as e:
         out["inconclusive"].append("%s: %s" % (entry.name, e))
     rep.close()
@@ -222,6 +227,8 @@ def entries_for(tier):
         else:
             es.append(DecodeEntry(ty, ml))
     es.extend(c15_streams.entries(tier))
+    if ONLY:
+        es = [e for e in es if any(o in e.name for o in ONLY.split(","))]
     return es, max_len
 
 
